@@ -7,7 +7,7 @@ import itertools
 from ..model import CFG, PDA, FST, ENFA, RSA, BOX
 from . import names
 from .common import site_of
-from .flow import (Oblig, calls, events, deps_of, arg_deps, SELF, P, result_locs)
+from .flow import (own, Oblig, calls, events, deps_of, arg_deps, SELF, P, result_locs)
 
 EXPLANATION = (
     "Decides writer / reader agreement, from constants and boolean structure only: for automata, PDAs and transducers "
@@ -235,9 +235,9 @@ def run(eng, rep, tier):
     ob.decide("R1", "C20.3", fe, "alternatives-joined-by-union", bool(joins) and all(j.strip() in ("|", "+") for j in joins),
               "several productions of one head are joined with a union spelling",
               "alternatives of a head are not joined with a union operator", se, site=site_of(prog, fe, fe.node))
-    boxes = [ev for ev in se.events if ev.kind == "new" and ev.callee == BOX]
+    boxes = [ev for ev in own(se) if ev.kind == "new" and ev.callee == BOX]
     mins = [ev for ev, _ in calls(se, "minimize", own=True)]
-    rx = [ev for ev in se.events if ev.kind == "new" and ev.callee.endswith("regex.Regex")]
+    rx = [ev for ev in own(se) if ev.kind == "new" and ev.callee.endswith("regex.Regex")]
     okb = len(boxes) >= 2 and bool(mins) and bool(rx) and all(ev.args and any(ev.args[0].alias & m.result.alias for m in mins)
                                                               for ev in boxes)
     ob.decide("R1", "C20.3", fe, "box=minimised-regex-automaton", okb,
@@ -256,7 +256,7 @@ def run(eng, rep, tier):
               None, site=site_of(prog, fe, fe.node))
     fr = prog.method("RecursiveAutomaton", "from_regex")
     sr = interp.run_entry(fr, RSA)
-    boxes = [ev for ev in sr.events if ev.kind == "new" and ev.callee == BOX]
+    boxes = [ev for ev in own(sr) if ev.kind == "new" and ev.callee == BOX]
     mins = [ev for ev, _ in calls(sr, "minimize", own=True)]
     ob.decide("R1", "C20.3", fr, "box=minimised-regex-automaton", bool(boxes) and bool(mins) and
               all(ev.args and any(ev.args[0].alias & m.result.alias for m in mins) and
